@@ -66,11 +66,62 @@ def _mentions_solver_kwargs(ff: FuncFacts, e: ast.expr) -> bool:
     return False
 
 
+def _seed_truthiness(chk):
+    """RNG.seed.truthiness - a seed is never tested for truth: 0 is a valid seed (``seed or default``, ``if seed:``,
+    ``seed and ...``, ``not seed`` treat it as "no seed given", so equal inputs with random_state=0 run unseeded)"""
+    pm = chk.pm
+    SEEDS = {"random_state", "seed"}
+
+    def is_seed(ff, e) -> bool:
+        if isinstance(e, ast.Constant):
+            return False
+        ps = ff.paths(e, spine_only=True)
+        if not ps:
+            return False
+        def one(p):
+            a = p.atom
+            if a.kind == "param" and a.name in SEEDS and not p.ops:
+                return True
+            if a.kind == "selfattr" and a.name.split(".")[-1] in SEEDS and not p.ops:
+                return True
+            if a.kind == "selfattr" and a.name in ("self._params", "self.attrs") and len(p.ops) == 1 and p.ops[0].kind == "subscript" \
+                    and const_str(getattr(p.ops[0].node, "slice", None)) in SEEDS:
+                return True
+            return False
+        return all(one(p) for p in ps)
+
+    n = 0
+    for fn in pm.functions.values():
+        src = norm(fn.node)
+        if not any(k in src for k in SEEDS):
+            continue
+        ff = None
+        tested = []
+        for node in walk_no_nested(fn.node):
+            if isinstance(node, ast.BoolOp):
+                tested += [(v, node) for v in node.values[:-1]]
+            elif isinstance(node, (ast.If, ast.IfExp, ast.While, ast.Assert)):
+                tested.append((node.test, node))
+            elif isinstance(node, ast.UnaryOp) and isinstance(node.op, ast.Not):
+                tested.append((node.operand, node))
+        for e, where in tested:
+            if isinstance(e, (ast.Compare, ast.BoolOp, ast.Call)) or (isinstance(e, ast.UnaryOp) and isinstance(e.op, ast.Not)):
+                continue
+            ff = ff or FuncFacts.of(fn)
+            if is_seed(ff, e):
+                n += 1
+                chk.violation("RNG.seed.truthiness", fn, where, construct=f"truth test of the seed `{norm(e)}`",
+                              why=f"`{norm(where)[:90]}` tests the seed {norm(e)} for truth: the valid seed 0 counts as 'no seed', so with random_state=0 the randomised "
+                                  "solver runs unseeded and equal inputs no longer give identical results (test `is None` instead)")
+    chk.ok("RNG.seed.truthiness", "xeofs", None, construct=f"<truth tests of seeds found: {n}>", nontrivial=False)
+
+
 def check(chk):
     _splat(chk)
     _wrappers(chk)
     _rng_global(chk)
     _rng_ctor(chk)
+    _seed_truthiness(chk)
     _exhaustive(chk)
     chk.floor("WIRE.splat", 1)
     chk.floor("WIRE.arrive", 8)
